@@ -6,6 +6,7 @@ template denotes (numbers, attributes, bonds, deleted and detached atoms, frame)
 deprotection tests, and Reactor runs on reordered / renumbered reactants are further record kinds.
 """
 import itertools
+import os
 import random
 
 import chy
@@ -226,8 +227,58 @@ def observe_reactor(case):
     return [rec]
 
 
+def observe_stages(case):
+    """Reactor(one_shot=False) against the single-stage relation recorded with one-shot reactors on single molecules"""
+    from chython import smiles, smarts
+    from chython.reactor import Reactor
+    ids = {}
+
+    def mid(m):
+        return ids.setdefault(str(m), len(ids) + 1)
+    rec = {'key': case['key'], 'start': [], 'limit': case['limit'], 'step': [], 'outs': [], 'oneshot': [], 'exc': ''}
+    mols = [smiles(s) for s in case['mols']]
+    for m in mols:
+        m.canonicalize()
+    pat, prod = smarts(case['pattern']), smarts(case['product'])      # (the templates are the driver's own: unreadable = driver error)
+    try:
+        one = Reactor([pat], [prod], one_shot=True, automorphism_filter=False)
+        many = Reactor([pat], [prod], one_shot=False, polymerise_limit=case['limit'], automorphism_filter=False)
+        rec['start'] = [mid(m) for m in mols]
+        # the single-stage relation, level by level (data collection only: the closure is computed by TLC)
+        store = {mid(m): m for m in mols}
+        done = {}
+        frontier = list(store)
+        for _ in range(case['limit'] + 1):
+            nxt = []
+            for k in frontier:
+                if k in done:
+                    continue
+                res = []
+                for r in one(store[k].copy()):
+                    p = r.products
+                    if len(p) != 1:
+                        raise ValueError('template gave several molecules')
+                    j = mid(p[0])
+                    store.setdefault(j, p[0])
+                    res.append(j)
+                    nxt.append(j)
+                done[k] = sorted(set(res))
+                if len(done) > 400:
+                    return [{'skip': 'too-many-molecules'}]
+            frontier = nxt
+        rec['step'] = [{'m': k, 'res': v} for k, v in sorted(done.items())]
+        outs = list(itertools.islice(many(*[m.copy() for m in mols]), 3000))
+        if len(outs) == 3000:
+            return [{'skip': 'too-many-results'}]
+        rec['outs'] = [sorted(mid(x) for x in r.products) for r in outs]
+        rec['oneshot'] = [sorted(mid(x) for x in r.products) for r in one(*[m.copy() for m in mols])]
+    except Exception as e:
+        rec['exc'] = type(e).__name__ + ':' + str(e)[:80]
+    return [rec]
+
+
 def observe(case):
-    return {'recs': {'apply': observe_apply, 'identity': observe_identity, 'doc': observe_doc, 'reactor': observe_reactor}[case['part']](case)}
+    return {'recs': {'apply': observe_apply, 'identity': observe_identity, 'doc': observe_doc, 'reactor': observe_reactor, 'stages': observe_stages}[case['part']](case)}
 
 
 # centres / double bonds that an edit makes non-stereogenic (the label has to go), each at an even and an odd pool position
@@ -302,6 +353,34 @@ def run(ck):
             seen.add(c['key'])
             uc.append(c)
     reactor_cases = ck.select('reactors', uc)
+    # multi-stage mode: the work-list machine of ReactorQueue.tla (model checked for every small relation) and recorded runs against it
+    if not ck.replay:
+        mcq = lambda name: open(os.path.join(vlib.SPEC, 'mc', name + '.cfg')).read()
+        ck.model('mc-reactor-queue', 'MC_ReactorQueue', mcq('MC_ReactorQueue_quick' if ck.quick else 'MC_ReactorQueue'), timeout=1800)
+        for name, inv in (('MC_ReactorQueue_sens_lifo', 'BreadthFirst'), ('MC_ReactorQueue_sens_nodedup', 'NoDuplicates'), ('MC_ReactorQueue_sens_limit', 'BreadthFirst')):
+            ck.model('selftest-' + name, 'MC_ReactorQueue', mcq(name), expect_violation=inv)
+    stage_templates = [('[C;h1,h2,h3:1]', '[C:1]Cl'), ('[O;D1;h1:1]', '[O:1]C'), ('[C:1][Cl:2]', '[C:1]'), ('[C;h2,h3:1]-[C;h2,h3:2]', '[C:1]=[C:2]'), ('[N;h1,h2:1]', '[N:1]C(C)=O'),
+                       ('[C:1]=[C:2]', '[C:1]1[C:2]O1'), ('[C:1](=[O:2])[O;D1:3]', '[C:1](=[O:2])[O:3]C'), ('[C;z4;h1:1]', '[C:1]F')]
+    stage_inputs = [['CC'], ['CCC'], ['OCCO'], ['OCC(O)CO'], ['ClCCCl'], ['ClC(Cl)Cl'], ['CO', 'CCO'], ['NCCN'], ['C=CC=C'], ['OC(=O)CC(=O)O'], ['c1ccccc1'], ['Cc1ccccc1'], ['CC', 'CC'],
+                    ['NCCO', 'OCC'], ['C=CCO'], ['ClCC=C', 'CO'], ['OC(=O)c1ccccc1', 'CCl']]
+    scases = [{'part': 'stages', 'key': f'stages|{p}>>{q}|{mols}|{lim}', 'pattern': p, 'product': q, 'mols': mols, 'limit': lim}
+              for p, q in stage_templates for mols in stage_inputs for lim in ((1, 2) if ck.quick else (1, 2, 3, 4))]
+    stage_cases = ck.select('multi-stage', scases)
+    if stage_cases:
+        res = vlib.pmap('checks.c16', 'observe', stage_cases)
+        recs, keys, skipped = [], [], 0
+        for c, r in zip(stage_cases, res):
+            if '_observer_error' in r:
+                raise vlib.Machinery(r['_observer_error'] + r['_tb'])
+            for x in r['recs']:
+                if 'skip' in x or not x['outs'] and not x['exc']:
+                    skipped += 1
+                    continue
+                recs.append(x)
+                keys.append(c)
+        ck.ood('multi-stage: template does not match / enumeration too large', skipped)
+        if recs:
+            ck.validate('multi-stage', 'Trace_Reactor', keys, recs)
     for part, cs in (('applications', apply_cases), ('identity', ident_cases), ('documented', doc_cases), ('reactors', reactor_cases)):
         if not cs:
             continue
